@@ -15,12 +15,24 @@ import corpus
 
 HERE = os.path.dirname(os.path.abspath(__file__))
 TOOL_DIR = os.path.join(HERE, "getters_tool")
-TOOL = os.path.join(corpus.TARGET, "debug", "getters_tool")
+# a target directory of its own: cargo holds a lock on the target directory for the whole duration of a build, and the
+# shared build/target is in use by every other suite (observed: minutes of "waiting for file lock")
+TARGET = os.path.join(corpus.BUILD, "target_c16")
+ENV = dict(corpus.ENV, CARGO_TARGET_DIR=TARGET)
+TOOL = os.path.join(TARGET, "debug", "getters_tool")
 DRIVER = os.path.join(corpus.VERIF, "lean", ".lake", "build", "bin", "model_driver")
 PREFIX = "c16g"
-VARIANTS = ("opt", "raw")
+VARIANTS = ("opt", "raw", "optbox", "rawbox")
 ATTRS = {"opt": "#[emit_rule_reference]\n    #[no_warnings]",
-         "raw": "#[emit_rule_reference]\n    #[pest_optimizer = false]\n    #[no_warnings]"}
+         "raw": "#[emit_rule_reference]\n    #[pest_optimizer = false]\n    #[no_warnings]",
+         "optbox": "#[emit_rule_reference]\n    #[box_only_if_needed]\n    #[no_warnings]",
+         "rawbox": "#[emit_rule_reference]\n    #[pest_optimizer = false]\n    #[box_only_if_needed]\n    #[no_warnings]"}
+
+
+def base(variant):
+    """The AST a derivation variant starts from (`opt` = optimized, `raw` = pest_optimizer = false); `…box` adds
+    `#[box_only_if_needed]`, which only changes `Box<T>` / `T` for the content field."""
+    return variant[:3]
 
 
 def handwritten_grammars():
@@ -118,6 +130,30 @@ c7 = { (&(PUSH(x | y ~ x)) ~ ANY)? ~ "b" }
 c8 = _{ (PUSH((x ~ "a")?))? ~ y }
 c9 = { (PUSH(PUSH(x?)?) ~ "a")? ~ (&(&(y | x)) ~ ANY | "b") }
 ''')
+    # wide choices / sequences (the runtime predefines arities up to 12, larger ones are macro-expanded in the user crate):
+    # widths 11..17, the same rule mentioned by all / the last two / the alternatives around 12 and 13
+    L = "abcdefghijklmnopq"
+    lines, ins = ['x = { "1" | "2" }'], []
+    for n in range(11, 18):
+        lines.append(f"cw{n} = {{ " + " | ".join(f'"{L[k]}" ~ x' for k in range(n)) + " }")
+        lines.append(f"cl{n} = {{ " + " | ".join((f'"{L[k]}" ~ x' if k >= n - 2 else f'"{L[k]}"') for k in range(n)) + " }")
+        if n >= 14:
+            lines.append(f"cm{n} = {{ " + " | ".join((f'"{L[k]}" ~ x' if k in (0, 11, 12, 13) else f'"{L[k]}"') for k in range(n)) + " }")
+    for k in range(17):
+        ins += [L[k], L[k] + "1", L[k] + "2"]
+    add("h_wide_choice", "\n".join(lines) + "\n")
+    gs[-1]["inputs"] = ins
+    # (character ranges, not strings: pest's optimizer concatenates adjacent strings and would shrink the sequence)
+    lines, ins = ['x = { "1" | "2" }'], []
+    for n in range(11, 18):
+        lines.append(f"sw{n} = {{ " + " ~ ".join((f"'{L[k]}'..'{L[k]}'" if k < n - 2 else "x") for k in range(n)) + " }")
+        ins += [L[:n - 2] + "12", L[:n - 2] + "21", L[:n - 2] + "1"]
+        if n >= 14:
+            lines.append(f"sm{n} = {{ " + " ~ ".join(("x?" if k in (0, 12, 13) else f"'{L[k]}'..'{L[k]}'") for k in range(n)) + " }")
+            body = lambda a, b, c: "".join((a if k == 0 else b if k == 12 else c if k == 13 else L[k]) for k in range(n))
+            ins += [body("1", "2", "1"), body("", "1", "2"), body("2", "", "1"), body("", "", ""), body("1", "2", "")]
+    add("h_wide_seq", "\n".join(lines) + "\n")
+    gs[-1]["inputs"] = ins
     # built-ins are getters too (they are not rule structs: only tied, no oracle), EOI is a rule
     add("h_builtin", r'''
 a = { "a" }
@@ -211,18 +247,18 @@ def c16_grammars(tier, seed):
 def ensure_tool():
     lock = os.path.join(TOOL_DIR, "Cargo.lock")
     subprocess.check_call(["cp", "/repo/Cargo.lock", lock])
-    p = subprocess.run(["cargo", "build", "--offline", "-q"], cwd=TOOL_DIR, env=corpus.ENV, capture_output=True, text=True)
+    p = subprocess.run(["cargo", "build", "--offline", "-q"], cwd=TOOL_DIR, env=ENV, capture_output=True, text=True)
     if p.returncode != 0:
         raise RuntimeError("getters_tool does not build against /repo's generator:\n" + p.stderr[-3000:])
 
 
-LEAF = re.compile(r"(rules::r#\w+)::<[^<>]*>")
 
 
-def tool_list(grammars):
-    """{(gid, variant): [(rule, name, type, prefix, path)] | 'ERR …'} from the real generator."""
+def tool_list(grammars, variants=VARIANTS):
+    """{(gid, variant): [(rule, name, type S-expression, boxed '0'|'1'|'?', path S-expression)] | 'ERR …'}: the
+    accessor functions /repo's generator emits, read back STRUCTURALLY by getters_tool."""
     ensure_tool()
-    inp = "".join(f"{g['gid']}\t{v}\t{corpus.hexs(g['text'])}\n" for g in grammars for v in VARIANTS)
+    inp = "".join(f"{g['gid']}\t{v}\t{corpus.hexs(g['text'])}\n" for g in grammars for v in variants)
     out = subprocess.run([TOOL], input=inp, capture_output=True, text=True).stdout
     res = {}
     for line in out.splitlines():
@@ -234,22 +270,20 @@ def tool_list(grammars):
             continue
         ents = []
         for e in filter(None, f[3].split(" ## ")):
-            rule, name, ty, body = e.split(" @@ ")
-            m = re.match(r"^\{letres=(&\*?self\.content);(.*)\}$", body)
-            prefix, path = (m.group(1), m.group(2)) if m else ("?", body)
-            ents.append((rule, name, LEAF.sub(r"\1", ty), prefix, path))
+            parts = e.split(" @@ ")
+            ents.append(tuple(parts) if len(parts) == 5 else ("?", "?", "?", "?", e[:200]))
         res[(f[0], f[1])] = ents
     return res
 
 
 def model_list(sexp_path, grammars):
-    """{(gid, variant): [(rule, name, type, path)]} from the Lean model (`genGetters`)."""
-    lines = [f"getters list {g['gid']} {v}" for g in grammars for v in VARIANTS]
+    """{(gid, 'opt'|'raw'): [(rule, name, type S-expression, path S-expression)]} from the Lean model (`genGetters`)."""
+    lines = [f"getters list {g['gid']} {v}" for g in grammars for v in ("opt", "raw")]
     out = subprocess.run([DRIVER, sexp_path], input="\n".join(lines) + "\n", capture_output=True, text=True).stdout.split("\n")
     res = {}
     k = 0
     for g in grammars:
-        for v in VARIANTS:
+        for v in ("opt", "raw"):
             line = out[k] if k < len(out) else "v=missing"
             k += 1
             ents = []
@@ -290,6 +324,7 @@ flat_tuple!(A 0, B 1, C 2, D 3, E 4, F 5, G 6, H 7, I 8); flat_tuple!(A 0, B 1, 
 flat_tuple!(A 0, B 1, C 2, D 3, E 4, F 5, G 6, H 7, I 8, J 9, K 10); flat_tuple!(A 0, B 1, C 2, D 3, E 4, F 5, G 6, H 7, I 8, J 9, K 10, L 11);
 flat_tuple!(A 0, B 1, C 2, D 3, E 4, F 5, G 6, H 7, I 8, J 9, K 10, L 11, M 12); flat_tuple!(A 0, B 1, C 2, D 3, E 4, F 5, G 6, H 7, I 8, J 9, K 10, L 11, M 12, N 13);
 flat_tuple!(A 0, B 1, C 2, D 3, E 4, F 5, G 6, H 7, I 8, J 9, K 10, L 11, M 12, N 13, O 14); flat_tuple!(A 0, B 1, C 2, D 3, E 4, F 5, G 6, H 7, I 8, J 9, K 10, L 11, M 12, N 13, O 14, P 15);
+flat_tuple!(A 0, B 1, C 2, D 3, E 4, F 5, G 6, H 7, I 8, J 9, K 10, L 11, M 12, N 13, O 14, P 15, Q 16); flat_tuple!(A 0, B 1, C 2, D 3, E 4, F 5, G 6, H 7, I 8, J 9, K 10, L 11, M 12, N 13, O 14, P 15, Q 16, S 17);
 '''
 
 MOD = '''
@@ -329,7 +364,7 @@ def fill(t, **kw):
     return t
 
 
-def emit_workspace(grammars, getters, outdir, nbins, skip=(), prefix=PREFIX):
+def emit_workspace(grammars, getters, outdir, nbins, skip=(), prefix=PREFIX, variants_of=None):
     """`getters[(gid, variant)]` = model listing; every listed accessor is called.  `skip` = set of
     (gid, variant) that the generator itself rejects (reported by the caller).  `prefix` names the binary
     crates: it must differ between workspaces that share one CARGO_TARGET_DIR (one per tier), otherwise the
@@ -365,13 +400,13 @@ pest = "=2.7.14"
         arms = []
         for g in glist:
             gid = g["gid"]
-            vs = [v for v in VARIANTS if (gid, v) not in skip]
+            vs = [v for v in (variants_of(g) if variants_of else VARIANTS) if (gid, v) not in skip]
             for v in vs:
                 code.append(fill(MOD, V=v, GID=gid, TEXT=g["text"], ATTRS=ATTRS[v]))
             for (rule, kind) in g["rules"]:
                 varms = []
                 for v in vs:
-                    xs = [e[1] for e in getters.get((gid, v), []) if e[0] == rule]
+                    xs = [e[1] for e in getters.get((gid, base(v)), []) if e[0] == rule]
                     code.append(fill(FN_HEAD, V=v, GID=gid, RULE=rule) + "".join(fill(FN_GET, V=v, GID=gid, X=x) for x in xs)
                                 + fill(FN_TAIL, V=v, GID=gid))
                     varms.append(f'"{v}" => f_{v}_{gid}_{rule}(input),')
